@@ -7,7 +7,7 @@
                  C05 values with small byte fields (frames per packet type, datagrams, transport parameters)
    The generator is a one-state specification; the enumeration is TLC's evaluation of the set expressions. *)
 EXTENDS WireVals, Json
-CONSTANTS L
+CONSTANTS L, Quick         \* Quick: the reduced C03 input sets of the quick tier
 VARIABLE z
 GenInit == z = 0
 GenNext == UNCHANGED z
@@ -23,6 +23,7 @@ EmitVals == z = 0 => \A v \in C05Vals : Out(WithSize(v))
 
 \* ---- C03 (i)
 EmitStrings == z = 0 => \A s \in PayloadStrings(L) : Out([c |-> "in_frame", b |-> s])
+Head == IF Quick THEN 12 ELSE 24
 
 \* ---- C03 (ii)
 Small(fr) == \A i \in 1..Len(fr.x) : Layout(fr.t)[i][1] \in {"lpb", "rest"} => Len(fr.x[i]) <= 64
@@ -30,17 +31,19 @@ MutAlphabet == Alphabet \cup CidBytes
 \* one representative of each frame kind x flag x width class is enough for the substitutions: the C05 values whose
 \* varint fields all sit at the same boundary, plus the rejected-by-construction values
 Diag(fr) == \A i, j \in 1..Len(fr.x) : (Layout(fr.t)[i][1] = "v" /\ Layout(fr.t)[j][1] = "v") => fr.x[i] = fr.x[j]
-MutFrames(u) == { fr \in FrameVals : Small(fr) /\ (Diag(fr) \/ fr.t \in {2, 3, 24, 28}) } \cup RejectedFrameVals
+MutFrames(u) == { fr \in FrameVals : Small(fr) /\ (Diag(fr) \/ (~Quick /\ fr.t \in {2, 3, 24, 28})) } \cup RejectedFrameVals
 \* (nested quantifiers instead of one big UNION: TLC would sort ~10^6 sequences to normalise the union; duplicates are
 \*  removed by the collector)
-EmitFrameMut == z = 0 => \A fr \in MutFrames(z) : \A s \in Mutations(EncodeFrame(fr), MutAlphabet) \cup {EncodeFrame(fr)} :
+EmitFrameMut == z = 0 => \A fr \in MutFrames(z) : \A s \in Mutations(EncodeFrame(fr), MutAlphabet, Head) \cup {EncodeFrame(fr)} :
                              Out([c |-> "in_frame", b |-> s])
 
 \* datagrams: every header kind with Length and a 20 / 21 byte payload; mutated; and pairs coalesced
 Pkt(h, n) ==
     EncodeHeader(h) \o (IF h.k \in {"initial", "zero_rtt", "handshake"} THEN EncVarint(V8(n)) ELSE <<>>)
     \o (IF h.k \in {"vn", "retry"} THEN <<>> ELSE [i \in 1..n |-> (i * 5) % 256])
-SmallHdrs(u) == { v.h : v \in { w \in HdrVals : Len(w.h.tok) <= 64 /\ Len(w.h.dcid) \in {0, 8, 20} /\ Len(w.h.scid) \in {0, 8} } }
+SmallHdrs(u) == { v.h : v \in { w \in HdrVals : /\ Len(w.h.tok) <= (IF Quick THEN 1 ELSE 64)
+                                                   /\ Len(w.h.dcid) \in (IF Quick THEN {0, 8} ELSE {0, 8, 20})
+                                                   /\ Len(w.h.scid) \in (IF Quick THEN {0, 8} ELSE {0, 8}) } }
 Datagrams(u) ==
     { Pkt(h, n) : h \in SmallHdrs(u), n \in {0, 19, 20, 21} }
     \cup { Pkt(h, 20) \o Pkt(g, 22) : h \in { x \in SmallHdrs(u) : x.k \in {"initial", "handshake"} /\ Len(x.tok) <= 1 /\ Len(x.dcid) = 8 /\ Len(x.scid) = 8 },
@@ -48,11 +51,13 @@ Datagrams(u) ==
 MutDatagrams(u) == { Pkt(h, 20) : h \in { x \in SmallHdrs(u) : Len(x.tok) <= 1 } }
 OutD(s) == Out([c |-> "in_dgram", b |-> s])
 EmitDgram == z = 0 => /\ \A s \in Datagrams(z) \cup StrsUpTo(Alphabet, 2) : OutD(s)
-                      /\ \A d \in MutDatagrams(z) : \A s \in Mutations(d, MutAlphabet) : OutD(s)
+                      /\ \A d \in MutDatagrams(z) : \A s \in Mutations(d, MutAlphabet, Head + 12) : OutD(s)
 
 \* transport parameters: the encodings of the C05 sets, mutated
-SmallParams(u) == { p \in ParamVals : \A i \in 1..Len(p.ps) : PType(p.ps[i].id) = "bytes" => Len(p.ps[i].val) <= 64 }
+SmallParams(u) == { p \in ParamVals : /\ \A i \in 1..Len(p.ps) : PType(p.ps[i].id) = "bytes" => Len(p.ps[i].val) <= 64
+                                      /\ (Quick => (Len(p.ps) <= 3 /\ p.role # "remembered")) }
 OutP(s) == Out([c |-> "in_params", b |-> s])
 EmitParams == z = 0 => /\ \A s \in StrsUpTo(Alphabet, 3) : OutP(s)
-                       /\ \A p \in SmallParams(z) : \A s \in Mutations(EncodeParams(p.ps), MutAlphabet) \cup {EncodeParams(p.ps)} : OutP(s)
+                       /\ \A p \in SmallParams(z) : \A s \in Mutations(EncodeParams(p.ps), MutAlphabet, Head) \cup {EncodeParams(p.ps)} : OutP(s)
+EmitC03 == EmitStrings /\ EmitFrameMut /\ EmitDgram /\ EmitParams
 =============================================================================
